@@ -30,6 +30,8 @@ RULE = (
     "half fully shuffled). Non-trivial: at least one wait had to block (request observed before the publication); distinct = interleaving signature."
 )
 DECIDING = {
+    "crowd_waiters_released": "components released in scenarios with 2-6 components waiting at once while siblings publish in bursts",
+    "crowd_scenarios_with_a_slow_listener": "... with a slow long-lived listener (queue of 1 or 3) on resource_added",
     "waits_that_blocked": "request before publication (waiter really waited)",
     "waits_already_published": "publication before request",
     "waits_same_instant": "request and publication at the same virtual instant (ordering decided by the scheduler)",
@@ -57,12 +59,132 @@ def plan(tier: str) -> dict[str, Any]:
 
 def gen_case(idx: int, seed: int, tier: str) -> Any:
     rng = case_rng(PROPERTY, seed, idx)
+    if idx % 8 == 5:
+        n = rng.randint(2, 6)
+        order = list(range(n))
+        rng.shuffle(order)
+        return {"kind": "crowd", "backend": rng.choice(["asyncio", "trio"]), "sched_seed": rng.randrange(1 << 30), "shuffle": rng.random() < 0.5,
+                "waiters": n, "burst": rng.choice([0, 3, 49, 50, 51, 60, 120]), "order": order, "yields": [rng.randint(0, 2) for _ in range(n)],
+                "publishers": rng.choice([1, 2, 3]), "second_burst": rng.choice([0, 0, 55]), "listener_queue": rng.choice([None, 1, 3])}
     tree = e2.gen_tree(rng, wait_heavy=True, max_nodes=rng.choice([4, 6, 10]), p_remap=0.3, with_services=False)
     return {"backend": rng.choice(["asyncio", "trio"]), "sched_seed": rng.randrange(1 << 30), "shuffle": rng.random() < 0.5,
             "timeout": rng.choice([None, 1e6]), "tree": tree}
 
 
+async def crowd_scenario(case: dict[str, Any], out: dict[str, Any]) -> None:
+    """several components are blocked in get_resource() at once, each for a resource of its own; one to three sibling components
+    then publish - after a burst of unrelated publications - the awaited resources one after the other at one virtual instant,
+    with a few scheduling rounds in between (so that woken waiters re-subscribe while others' queues are still full).  Optionally
+    a long-lived listener with a small queue sits on resource_added.  Every waiter must be released at that very instant."""
+    import anyio
+    from anyio.lowlevel import checkpoint
+    from asphalt.core import Component, Context, add_resource, get_resource, start_component
+
+    n = case["waiters"]
+    types = [type(f"Awaited{i}", (), {}) for i in range(n)]
+    objs = [types[i]() for i in range(n)]
+    Unrelated = type("Unrelated", (), {})  # noqa: N806
+    t0 = [0.0]
+    done: dict[int, Any] = out["done"]
+
+    def make_waiter(i: int) -> Any:
+        async def start(self: Any) -> None:
+            got = await get_resource(types[i])
+            done[i] = (anyio.current_time() - t0[0], got is objs[i])
+
+        return type(f"Waiter{i}", (Component,), {"start": start})
+
+    def make_publisher(k: int) -> Any:
+        mine = [i for pos, i in enumerate(case["order"]) if pos % case["publishers"] == k]
+
+        async def start(self: Any) -> None:
+            await anyio.sleep(1)
+            if k == 0:
+                for b in range(case["burst"]):
+                    add_resource(Unrelated(), f"burst_{b}")
+            for i in mine:
+                for _ in range(case["yields"][i]):
+                    await checkpoint()
+                add_resource(objs[i])
+                if case["second_burst"] and i == mine[0]:
+                    for b in range(case["second_burst"]):
+                        add_resource(Unrelated(), f"burst2_{k}_{b}")
+
+        return type(f"Publisher{k}", (Component,), {"start": start})
+
+    class Root(Component):
+        def __init__(self) -> None:
+            for i in range(n):
+                self.add_component(f"w{i}", make_waiter(i))
+            for k in range(case["publishers"]):
+                self.add_component(f"p{k}", make_publisher(k))
+
+    async with Context() as ctx:
+        async with anyio.create_task_group() as tg:
+            if case["listener_queue"] is not None:
+                ready = anyio.Event()
+
+                async def listener() -> None:
+                    # an application-level listener that is slow: its small queue is full most of the time
+                    async with ctx.resource_added.stream_events(max_queue_size=case["listener_queue"]) as stream:
+                        ready.set()
+                        async for _ in stream:
+                            await anyio.sleep(0.5)
+
+                tg.start_soon(listener)
+                await ready.wait()
+            t0[0] = anyio.current_time()
+            try:
+                with anyio.fail_after(100):
+                    await start_component(Root, timeout=None)
+                out["returned_at"] = anyio.current_time() - t0[0]
+            except BaseException as e:
+                out["error"] = e
+            tg.cancel_scope.cancel()
+
+
+def run_crowd(case: dict[str, Any]) -> dict[str, Any]:
+    import warnings
+
+    from vkit.trace import describe_exc
+    from vkit.vtime import VirtualDeadlock, run_virtual
+
+    out: dict[str, Any] = {"done": {}}
+    V: list[dict[str, Any]] = []
+
+    def bad(key: str, msg: str) -> None:
+        V.append({"key": key, "msg": f"{case['waiters']} components waiting at once, burst of {case['burst']}: {msg}",
+                  "witness": {"case": case, "done": {str(k): v for k, v in out["done"].items()}, "error": describe_exc(out.get("error"))}})
+
+    try:
+        with warnings.catch_warnings():
+            warnings.simplefilter("ignore")
+            run_virtual(case["backend"], crowd_scenario, case, out, sched_seed=case["sched_seed"], shuffle=case["shuffle"])
+    except VirtualDeadlock as e:
+        bad("start-deadlock", f"start-up never finished: {e}")
+    if not V:
+        if "error" in out:
+            bad("start-timeout" if isinstance(out["error"], TimeoutError) else "start-raised", f"start_component ended with {describe_exc(out['error'])}; released: {sorted(out['done'])}")
+        else:
+            for i in range(case["waiters"]):
+                t, same = out["done"].get(i, (None, None))
+                if t is None:
+                    bad("wait-never-released", f"waiter {i} was never released")
+                elif abs(t - 1.0) > 1e-9:
+                    bad("wait-wrong-time", f"waiter {i} was released at virtual time {t}, its resource was published at 1.0")
+                elif not same:
+                    bad("wait-wrong-object", f"waiter {i} got another object than the one published")
+    c = {"crowd_scenarios": 1, "crowd_waiters_released": len(out["done"])}
+    if case["burst"] >= 50 or case["second_burst"]:
+        c["crowd_scenarios_with_burst_50plus"] = 1
+    if case["listener_queue"] is not None:
+        c["crowd_scenarios_with_a_slow_listener"] = 1
+    return {"violations": V[:3], "sig": ("crowd", tuple(sorted((k, str(v)) for k, v in case.items()))), "nontrivial": True, "counters": c, "sample": None}
+
+
 def run_case(case: Any) -> dict[str, Any]:
+    if case.get("kind") == "crowd":
+        return run_crowd(case)
     run = e2.execute(case)
     V, c = e2.check_success(run)
     tree = case["tree"]
